@@ -5,6 +5,9 @@ QUERIES = [
     models=['m_throw.c', 'm_signal.c', 'm_env.c'], libmodels=['m_string.c', 'm_stl.c'], unwind=14, unwindset=['strlen.0:40'],
     bounds='one entry of the real detail::on_signal<FrontendOptions>: signal in {TERM,INT,ABRT,FPE,ILL,SEGV}; caller = backend thread / another thread / backend not started; logger available or not; should_reraise on/off; any timeout; first entry or a second concurrent entry',
     what='effect sequence: alarm armed with the configured timeout; on a non-backend thread with a logger the notice(s) are logged and flush_log(0) completes BEFORE exit(EXIT_SUCCESS) (INT/TERM) or before signal(SIG_DFL)+raise(original signal) (others, when re-raise is on); no logging from the backend thread itself; a second concurrent entry parks without any effect'),
+  Q('on_alarm_watchdog', 'C07_signal.cpp', 'h_on_alarm', forbid=[r'get_local_thread_context'], models=['m_throw.c', 'm_signal.c', 'm_env.c'], libmodels=['m_string.c', 'm_stl.c'], unwind=14,
+    bounds='real detail::on_alarm with the recorded original signal in {none, TERM, INT, ABRT, FPE, ILL, SEGV}',
+    what='the watchdog restores the default disposition of and re-raises the ORIGINAL signal (SIGALRM itself when it came first); it never exits successfully'),
 ]
 BOUNDS = 'one handler entry; all six handled signals'
 OUTSIDE = 'NOT APPLICABLE and not claimed: kernel signal delivery, that the process then dies with that wait status, async-signal-safety, atexit/static destruction order, thread join, and the BackendWorker::_exit drain (backend kernels not under the memory cap). Backend::stop / restart.'
